@@ -2,6 +2,7 @@ package gltf
 
 import (
 	"image/color"
+	"reflect"
 
 	"github.com/EliCDavis/polyform/math/quaternion"
 	"github.com/EliCDavis/polyform/math/trs"
@@ -135,7 +136,31 @@ func (pm *PolyformMaterial) equal(other *PolyformMaterial) bool {
 			return false
 		}
 	}
+	if !pm.NormalTexture.equal(other.NormalTexture) {
+		return false
+	}
+	if !pm.OcclusionTexture.equal(other.OcclusionTexture) {
+		return false
+	}
+	if !reflect.DeepEqual(pm.Extras, other.Extras) {
+		return false
+	}
 	return true
+}
+
+func (pt *PolyformOcclusion) equal(other *PolyformOcclusion) bool {
+	if pt == other {
+		return true
+	}
+
+	if pt == nil || other == nil {
+		return false
+	}
+
+	if !pt.PolyformTexture.equal(other.PolyformTexture) {
+		return false
+	}
+	return float64PtrsEqual(pt.Strength, other.Strength)
 }
 
 func (pt *PolyformTexture) equal(other *PolyformTexture) bool {
@@ -149,6 +174,15 @@ func (pt *PolyformTexture) equal(other *PolyformTexture) bool {
 
 	if pt.URI != other.URI {
 		return false
+	}
+
+	if len(pt.Extensions) != len(other.Extensions) {
+		return false
+	}
+	for i, ext := range pt.Extensions {
+		if ext != other.Extensions[i] {
+			return false
+		}
 	}
 
 	if pt.Sampler == other.Sampler {
